@@ -138,7 +138,8 @@ def classify(case, ctx=None, n_runs=0):
         covered = 0.0
         slack = N * 2.0**-18 + 1e-6
         for u, width, mid in probes:
-            tape = doubles.Tape(smc.uniform, fn=lambda i, a, k, u=u: jnp.asarray(np.float32(u)), name="uniform")
+            # the scripted offset is a point of the unit interval, delivered in whatever range the code asks for
+            tape = doubles.Tape(smc.uniform, fn=lambda i, a, k, u=u: jnp.asarray(np.float32(float(a[0]) + u * (float(a[1]) - float(a[0])) if len(a) >= 2 else u)), name="uniform")
             try:
                 with doubles.scripted(smc, uniform=tape):
                     out = impl(smc.resample, parts, method)
